@@ -47,7 +47,8 @@ def value_programs(tier):
 def mutation_programs():
     """User code mutates a delivered container in place; a later operation delivers an equal value."""
     out = []
-    for n, v in (("list", [1, 2]), ("dict", {"a": [1], "b": {}}), ("nested-list", [[1], {"k": []}])):
+    for n, v in (("list", [1, 2]), ("dict", {"a": [1], "b": {}}), ("nested-list", [[1], {"k": []}]),
+                 ("long-list", list(range(400))), ("long-nested", [list(range(300)), ["x"] * 200])):
         out.append({"name": f"mutated[{n}]", "seq": [
             {"k": "step", "fn": {"ret": v}, "mutate": True}, {"k": "step", "fn": {"ret": v}}, {"k": "wait", "s": 1},
             {"k": "step", "fn": {"ret": v}, "mutate": True}, {"k": "wait", "s": 1},
@@ -99,7 +100,7 @@ def run(ctx):
                               "2^70) delivered by a step, a child context, wait_for_condition and a parallel branch, each replayed "
                               "after every suspension and every single crash point; 14 error programs (two exception classes x messages "
                               "{empty, plain, unicode, 300 chars, colons, 'None', multi-line}) failing in a step, a child context and a "
-                              "parallel branch, caught by class and replayed; 3 programs whose user code mutates a delivered list/dict in place "
+                              "parallel branch, caught by class and replayed; 5 programs whose user code mutates a delivered list/dict in place "
                               "before an equal value is delivered by a later operation")
 
 
